@@ -1,15 +1,16 @@
-\* thorough: liveness, 2 users / 3 uploads, repaired position for the limit change.
+\* thorough: liveness, repaired position, 2 users / 3 uploads, limit 1, three life-cycle events.
 SPECIFICATION FairSpec
 CONSTANTS
   UploadIds = {1, 2, 3}
   PerUser = 2
   MaxSlots = 2
-  InitSlots = {0, 1}
+  InitSlots = {1}
+  InitTruth = {"unknown"}
   AnyInitAttr = FALSE
   Statuses = {"unknown", "offline", "away", "online"}
-  SlotBudget = 1
-  AttrBudget = 1
-  LifeBudget = 2
+  SlotBudget = 0
+  AttrBudget = 0
+  LifeBudget = 3
   TrackMgmt = TRUE
   GrantAll = FALSE
   UseUploadingUsers = TRUE
@@ -20,5 +21,8 @@ CONSTANTS
   WPriv = 100
   StateChangeNotifies = TRUE
   SlotsChangeNotifies = TRUE
+  TaskEndNotifies = TRUE
+  RequeueTail = FALSE
+  TrackPerUser = TRUE
 PROPERTY EventuallyStarted
 CHECK_DEADLOCK FALSE
